@@ -197,6 +197,7 @@ type Exec struct {
 	pbCache   map[*Loc]*PRMsg
 	clockLast *smt.Term
 	tierVals  map[string]int
+	sleep     map[string]footprint
 }
 
 type pathEnd struct {
